@@ -2109,9 +2109,10 @@ func (s *crSess) batch(words []string, emit func(string, string), fail func(stri
 	results := make([]res, len(reqs))
 	issued := make([]int, len(reqs))
 	done := make(chan int, len(reqs))
+	// all transactions are begun before the first commit: NewTransaction waits until every
+	// earlier commit timestamp is done, and the first commit will be stuck for a while
+	txns := make([]*badger.Txn, len(reqs))
 	for i, r := range reqs {
-		i := i
-		issued[i] = s.nEvents()
 		txn := s.db.NewTransaction(true)
 		var err error
 		for _, e := range parseCrEnts(r) {
@@ -2127,10 +2128,18 @@ func (s *crSess) batch(words []string, emit func(string, string), fail func(stri
 		if err != nil {
 			txn.Discard()
 			results[i].err = err
+			continue
+		}
+		txns[i] = txn
+	}
+	for i := range reqs {
+		i := i
+		issued[i] = s.nEvents()
+		if txns[i] == nil {
 			done <- i
 			continue
 		}
-		txn.CommitWith(func(err error) {
+		txns[i].CommitWith(func(err error) {
 			results[i] = res{err: err, acked: s.nEvents()}
 			done <- i
 		})
